@@ -104,6 +104,15 @@ type Contracts struct {
 var headerKW = map[string]bool{"addressable": true, "ghostvar": true, "uf": true, "func": true, "interface": true, "extern": true, "model": true, "spec": true, "lemma": true, "axiom": true}
 var clauseKW = map[string]bool{"noinference": true, "localonly": true, "observe": true, "requires": true, "ensures": true, "modifies": true, "safe": true, "trusted": true, "loop": true, "at": true, "crash_invariant": true, "fresh": true}
 
+func isBareWord(t string) bool {
+	for _, c := range t {
+		if !(c == '_' || c >= 'a' && c <= 'z' || c >= 'A' && c <= 'Z' || c >= '0' && c <= '9') {
+			return false
+		}
+	}
+	return t != "" && t != "true" && t != "false" && t != "nil"
+}
+
 type rawItem struct {
 	line int
 	text string
@@ -154,6 +163,10 @@ func parseContracts(text string) (c *Contracts, err error) {
 		} else {
 			if len(items) == 0 {
 				panic(parseErr(fmt.Sprintf("line %d: continuation without a clause", i+1)))
+			}
+			if first == t && isBareWord(t) {
+				// a single bare identifier on its own line is a (misspelt) clause keyword, not a continuation
+				panic(parseErr(fmt.Sprintf("line %d: unknown clause keyword %q", i+1, t)))
 			}
 			items[len(items)-1].text += " " + t
 		}
